@@ -613,6 +613,10 @@ def main():
                 if m and m.group(1) == prop:
                     det = ol[i + 1].strip()[8:] if i + 1 < len(ol) and ol[i + 1].startswith("  detail") else "(no detail)"
                     violations.append({"msg": det, "replay": m.group(2)})
+        if r["rc"] == -9:
+            # SIGKILL comes from outside the process (out-of-memory killer, operator): never a verdict
+            inconclusive_reasons.append(f"killed-by-SIGKILL(out-of-memory?):{fl}:{r['sh']['args'][0]}")
+            continue
         kind = "crash"
         if r["rc"] == 86 and "FATAL hang" in text:
             kind = "hang"
